@@ -236,6 +236,41 @@ def long_family(ctx):
                      "lambdas": [1e-3, 1.0, 100.0, 1e4], "p": [None, 0.1, 0.9]})
 
 
+def slow_family(ctx):
+    """Series whose reweighting has not converged after 10 passes: the statement fixes the result as the curve
+    reached by (at most) 10 passes from the zero curve, so one pass more or less is observable here."""
+    from ..oracle import pls
+    sub = "ten_pass_limit"
+    nd = -3000.0
+    t4 = np.arange(400)
+    fam = {
+        "walk400": np.round(np.cumsum(((t4 * 7919 + 13) % 601 - 300))).clip(-10000, 10000).astype(np.float64),
+        "steps400": np.round(((t4 // 37) % 5) * 1800 + ((t4 * 13) % 29) * 25).astype(np.float64),
+        "tri200": np.round(8000 * np.abs(((np.arange(200) / 97.0) % 2) - 1) + ((np.arange(200) * 31) % 17) * 40).astype(np.float64),
+    }
+    exhausted = 0
+    for name, y in fam.items():
+        for lam, p_env in ((10 ** 2.8, 0.0001), (1e4, 0.001), (1e4, 0.0001), (10 ** 2.8, 0.999), (10.0, 0.0001), (10 ** 2.8, 0.001)):
+            Y = y[None, :]
+            valid = np.ones_like(Y, bool)
+            # how many passes does the reference need?  (reported: the clause is only exercised when > 10)
+            z = np.zeros_like(Y)
+            prev = None
+            need = 0
+            for k in range(40):
+                wa = np.where(Y > z, p_env, 1 - p_env)
+                if prev is not None and np.array_equal(wa, prev):
+                    break
+                z, _ = pls.batch_solve(Y, lam, wa, refine=0)
+                prev = wa
+                need = k + 1
+            exhausted += int(need > 10)
+            check_fixed("ws2dpgu", Y, valid, nd, lam, p_env, ctx, sub)
+            ctx.count(sub, nontrivial=int(need > 10))
+    ctx.note("ten_pass_limit_cases_not_converged_after_10", exhausted)
+    ctx.sample(sub, {"series": list(fam), "lambda_p": [[10 ** 2.8, 0.0001], [1e4, 0.001], [10 ** 2.8, 0.999]], "not_converged_after_10_passes": exhausted})
+
+
 def run(ctx):
     wc.compile_all()
     letters = wc.letters_for(ctx.seed)
@@ -254,6 +289,7 @@ def run(ctx):
     lambda_zero(ctx, letters)
     accessor(ctx, letters)
     long_family(ctx)
+    slow_family(ctx)
 
 
 def replay(sub, case, p):
